@@ -80,6 +80,11 @@ def group_dicts(config: dict, params_per_group: list[list[torch.nn.Parameter]]) 
         if eff["precond"].get("ignored") and eff["override"] != 0:
             eff["override"] = 0
             d["inv_root_override"] = 0
+        # not a runnable configuration (torch has no bfloat16 kernels for qr / trace): see gen.st_config
+        pc = eff["precond"]
+        if eff["fdtype"] == "bf16" and ((pc["kind"] == "soap" and pc.get("method") == "qr") or pc.get("solver") in ITERATIVE):
+            eff["fdtype"] = "f32"
+            d["preconditioner_dtype"] = torch.float32
         dicts.append(d)
         effs.append(eff)
     return dicts, effs
@@ -107,7 +112,10 @@ class OptRunner:
         self.dead = False
         self.failed_construct: Failure | None = None
         self.nsteps = 0
-        self.stats = {"refresh_steps": 0, "post_refresh_nonrefresh": 0, "mask_changes": 0, "all_absent": 0, "blocks": 0}
+        self.stats = {"refresh_steps": 0, "post_refresh_nonrefresh": 0, "mask_changes": 0, "all_absent": 0, "blocks": 0,
+                      "nonidentity_refresh": 0, "stale_after_nonidentity": 0, "qr_steps": 0, "equal_shape_partial_mask": 0,
+                      "never_updated": 0}
+        self._ever = None
         self._had_refresh = [False] * len(self.groups)
         self._prev_mask: list[bool] | None = None
         try:
@@ -161,6 +169,16 @@ class OptRunner:
         if not any(mask):
             self.stats["all_absent"] += 1
         self._prev_mask = list(mask)
+        self._ever = list(mask) if self._ever is None else [a or b for a, b in zip(self._ever, mask)]
+        idx0 = 0
+        for g in self.groups:
+            shp = [tuple(x) for x in g["shapes"]]
+            mk = mask[idx0: idx0 + len(shp)]
+            idx0 += len(shp)
+            for sh in set(shp):
+                ms = [m for x, m in zip(shp, mk) if x == sh]
+                if len(ms) >= 2 and any(ms) and not all(ms):
+                    self.stats["equal_shape_partial_mask"] += 1
         # gradients
         idx = 0
         grads: list[list[torch.Tensor | None]] = []
@@ -190,6 +208,9 @@ class OptRunner:
             if self._is_solver_giving_up(e):
                 self.out.classes.append("iterative_solver_gave_up")
                 return fails
+            if self._is_overflow(e, prev, grads):
+                self.out.classes.append("overflow_domain")
+                return fails
             import traceback
 
             tb = traceback.extract_tb(e.__traceback__)
@@ -216,6 +237,8 @@ class OptRunner:
                 self._had_refresh[gi] = True
             elif has and self._had_refresh[gi]:
                 self.stats["post_refresh_nonrefresh"] += 1
+                if self.stats["nonidentity_refresh"]:
+                    self.stats["stale_after_nonidentity"] += 1
             pd, fd = gen.DT[hp["pdtype"]], gen.DT[hp["fdtype"]]
             for pi, p in enumerate(ps):
                 pv = prev[(gi, pi)]
@@ -250,6 +273,30 @@ class OptRunner:
         solvers = {h["precond"].get("solver") for h in self.hp if h["precond"]["kind"] == "shampoo"}
         return isinstance(e, ValueError) and bool(solvers & set(ITERATIVE)) and (
             "exceeded the allowed tolerance" in str(e) or "Encountered nan or inf values in inverse factor matrix" in str(e))
+
+    def _is_overflow(self, e: Exception, prev: dict, grads: list) -> bool:
+        """PreconditionerValueError for inf/nan in a factor matrix is the documented response to divergence; it is outside the
+        property's domain (finite arithmetic) when the float64 model itself leaves the finite range of the factor dtype."""
+        if type(e).__name__ != "PreconditionerValueError" or "in factor matrix" not in str(e):
+            return False
+        for gi, ps in enumerate(self.params):
+            hp = self.hp[gi]
+            fmax = 1e-3 * float(torch.finfo(gen.DT[hp["fdtype"]]).max)
+            pmax = 1e-3 * float(torch.finfo(gen.DT[hp["pdtype"]]).max)
+            for pi, p in enumerate(ps):
+                g = grads[gi][pi]
+                if g is None:
+                    continue
+                g = g.double()
+                w = prev[(gi, pi)]["w"].double()
+                if hp.get("wd", 0.0) != 0.0 and not hp.get("decoupled", True):
+                    g = g + hp["wd"] * w
+                peak = float(g.abs().max()) if g.numel() else 0.0
+                fro2 = float((g * g).sum())
+                old = max([float(v.double().abs().max()) for k, v in prev[(gi, pi)]["state"].items() if "factor_matrices" in k and v.numel()] + [0.0])
+                if not (peak == peak) or peak > pmax or fro2 + old > fmax or peak * peak > pmax:
+                    return True
+        return False
 
     def _check_untouched(self, gi: int, pi: int, p: torch.nn.Parameter, pv: dict) -> list[Failure]:
         P = self.PREFIX
@@ -308,7 +355,9 @@ class OptRunner:
                     comps.extend(cs)
                     self.out.classes.extend(cl)
                     if not expect_id and post.eigvec[j].shape[0] > 1:
-                        self._nonidentity_basis = True
+                        self.stats["nonidentity_refresh"] += 1
+                    if "qr_step" in cl:
+                        self.stats["qr_steps"] += 1
                 elif not rm.bitwise_equal(post.eigvec[j], pre.eigvec[j]):
                     fails.append(Failure(f"{P}.b.held_fixed", "eigenbasis changed on a non-refresh step", where))
         for c in comps:
@@ -321,12 +370,23 @@ class OptRunner:
         return fails
 
     # ------------------------------------------------------------------ end of history
+    def nontrivial_rule(self) -> bool:
+        st = self.stats
+        return st["refresh_steps"] >= 1 and st["post_refresh_nonrefresh"] >= 1 and st["blocks"] >= 2
+
     def finish(self) -> Outcome:
         out = self.out
         st = self.stats
-        nblocks = st["blocks"]
-        out.nontrivial = st["refresh_steps"] >= 1 and st["post_refresh_nonrefresh"] >= 1 and nblocks >= 2
+        out.nontrivial = self.nontrivial_rule()
         cl = out.classes
+        if st["equal_shape_partial_mask"]:
+            cl.append("equal_shape_partial_mask")
+        if self._ever is not None and not all(self._ever):
+            cl.append("never_updated_param")
+        if st["stale_after_nonidentity"]:
+            cl.append("stale_nonidentity_basis_used")
+        if st["qr_steps"] >= 1:
+            cl.append("real_qr_refresh")
         if st["mask_changes"]:
             cl.append("mask_change")
         if st["all_absent"]:
